@@ -166,6 +166,33 @@ theorem dispatch_bankSend_ok {f : Faults} {d d' : Disp} {to : String} {coins : L
       exact ⟨b, hb, rfl⟩
     · cases h
 
+/-- anatomy of a committed transaction: the attached funds moved, the handler succeeded, and every
+message it returned was dispatched successfully, in order, starting from the world with the funds
+moved and the handler's store -/
+theorem runExecCore_some {w w' : World} {sender : String} {funds : List Coin} {msg : ExecMsg} {f : Faults}
+    {txi : Option Nat} {calls : List Call} (h : runExecCore w sender funds msg f txi = (some w', calls)) :
+    ∃ bal1 c' msgs d,
+      (if funds.isEmpty then some w.bal else bankMove w.bal sender w.self funds) = some bal1
+      ∧ execute w.c (w.env txi) { sender, funds } msg = .ok (c', msgs)
+      ∧ dispatchAll f { w := { w with bal := bal1, c := c' },
+                        calls := [Call.execute { sender, funds } msg (.ok msgs)] } msgs = (d, true)
+      ∧ w' = d.w := by
+  unfold runExecCore at h
+  simp only at h
+  split at h
+  · cases h
+  · rename_i bal1 hb
+    cases hx : execute ({ w with bal := bal1 } : World).c (({ w with bal := bal1 } : World).env txi) { sender, funds } msg with
+    | error e => simp only [hx] at h; cases h
+    | ok r =>
+      obtain ⟨c', msgs⟩ := r
+      simp only [hx] at h
+      split at h
+      · rename_i d hd
+        simp only [Prod.mk.injEq, Option.some.injEq] at h
+        exact ⟨bal1, c', msgs, d, hb, hx, hd, h.1.symm⟩
+      · cases h
+
 /-- a successfully dispatched tracked transfer: the coins leave the contract, a pending packet with
 the next sequence number exists, and `reply` moved the waiting entry into the packet table -/
 theorem dispatch_transferSub_ok {f : Faults} {d d' : Disp} {s : CState} {env : Env} {id : Nat} {recv : String} {coin : Coin}
